@@ -113,6 +113,13 @@ struct Monitor {
     void (*finish)(Ctx&);           // may be null: end-of-run checks / counters
 };
 void register_monitor(const Monitor& m);
+Ctx* current_ctx();                 // the worker's context (for attribution from helpers that have no Ctx at hand)
+// While alive, a crash / sanitizer abort is attributed to `prop` instead of the monitor's current property.
+struct AttrScope {
+    char saved[8]; Ctx* c;
+    explicit AttrScope(const char* prop) : c(current_ctx()) { if (c) { memcpy(saved, c->cur_prop, 8); c->attribute(prop); } }
+    ~AttrScope() { if (c) memcpy(c->cur_prop, saved, 8); }
+};
 #define VF_REGISTER(mon) static struct Reg_##mon { Reg_##mon() { vf::register_monitor(mon); } } reg_##mon
 
 } // namespace vf
